@@ -3,6 +3,7 @@ from __future__ import annotations
 
 import copy
 import io
+import json
 import random
 
 from sim import gen
@@ -108,8 +109,9 @@ def run_case(case, stats):
             root(s)
             return s.tell()
 
-        a1 = gen.accepted_input(rng, p, stats=stats)
-        a2 = gen.accepted_input(rng, p, stats=stats)
+        lr = gen.has_null_terminated(case["defs"])
+        a1 = gen.accepted_input(rng, p, stats=stats, long_runs=lr, tries=5 if lr else 4)
+        a2 = gen.accepted_input(rng, p, stats=stats, long_runs=lr, tries=5 if lr else 4)
         if a1 is None or a2 is None:
             raise Discard("no_accepted_input")
         v1 = a1[0][: a1[1]]
@@ -174,6 +176,10 @@ def run_case(case, stats):
                                 f"parse at p={p} form={op['form']} after {hist}: got {got} stand-alone parse of image[p:] gives {exp}", p=p)
             if got[0] == "val" and first_ok is None:
                 first_ok = (p, got)
+            if got[0] == "val" and got[2] >= 64:
+                stats.count("probe.parsed_value_of_64_bytes_or_more")
+                if '"char[]"' in json.dumps(got[1]):
+                    stats.count("probe.long_value_with_null_terminated_string")
             hist.append("parse_ok" if got[0] == "val" else "parse_fail")
         elif k == "parse_fault":
             # a parse that dies half-way on an injected read error, then the history continues on a clean stream at the same place
